@@ -25,7 +25,8 @@ def CloseStep (s : Shared) (t : Thread) (tid : Tid) (alt : Bool) : Prop :=
     (t'.pc = .done → pcKind t.pc = some .producer → t.pc = .tRel ∨ s.enqueueDone = true) ∧
     (t.pc ≠ .start → t.pc ≠ .eNext → t'.src = t.src) ∧
     (t.pc ≠ .start → t'.pc = .bAcq → t'.result = []) ∧
-    (t.pc = .eNext → t.src ≠ [] → s.ignoreError = false → tRegion t'.pc = true ∨ t'.pc = .done → s'.exc.isSome = true)
+    (t.pc = .eNext → t.src ≠ [] → s.ignoreError = false → tRegion t'.pc = true ∨ t'.pc = .done → s'.exc.isSome = true) ∧
+    (t.pc = .pRaiseT → s.ignoreError = false → s'.exc.isSome = true)
 
 set_option hygiene false in
 macro "close_group" : tactic => `(tactic| (
